@@ -66,7 +66,13 @@ pub async fn run(seed: u64, sched: Rc<Sched>, keep_log: bool) -> (CaseResult, Ve
             while !stop.load(Ordering::SeqCst) {
                 hist.rec(Ev::AcceptCall { peer });
                 // Connections come and go: an accept may be abandoned (peer disconnects).
-                let actx = root.with_timeout(time::Duration::milliseconds(prng.gen_range(20..400)));
+                // (In the fair suffix connections are stable: a lost wake-up must not be masked by
+                // the peer re-entering `accept_block`.)
+                let actx = if fair.load(Ordering::SeqCst) {
+                    root.with_timeout(time::Duration::seconds(100_000))
+                } else {
+                    root.with_timeout(time::Duration::milliseconds(prng.gen_range(20..400)))
+                };
                 let r = queue.accept_block(&actx, &mut rx).await;
                 let Ok((number, done)) = r else {
                     continue;
@@ -138,6 +144,11 @@ pub async fn run(seed: u64, sched: Rc<Sched>, keep_log: bool) -> (CaseResult, Ve
             end = e;
             break;
         }
+        if matches!(e, DriveEnd::Stuck) && phase_rounds > prefix_rounds + 50 {
+            // Everything is blocked although every peer could serve every request.
+            end = e;
+            break;
+        }
         phase_rounds += 1;
         if phase_rounds == prefix_rounds {
             // Fair suffix: every peer has everything and always succeeds.
@@ -170,7 +181,7 @@ pub async fn run(seed: u64, sched: Rc<Sched>, keep_log: bool) -> (CaseResult, Ve
         );
     }
     stop.store(true, Ordering::SeqCst);
-    d.tick_sizes = vec![500_000_000];
+    d.tick_sizes = vec![500_000_000, 100_000_000_000_000];
     let _ = d.drive(|| peers.iter().all(|h| h.is_finished()) && reqs.iter().all(|h| h.is_finished()), |_| {}).await;
     d.drain().await;
     check(&hist);
@@ -198,6 +209,8 @@ fn check(hist: &SharedHist<Ev>) {
     // Per peer: minima of `outstanding` seen since its AcceptCall.
     let mut window: BTreeMap<usize, BTreeSet<u64>> = BTreeMap::new();
     let mut live_requests: BTreeSet<u64> = BTreeSet::new();
+    // Blocks fetched successfully since their request was issued.
+    let mut fetched: BTreeSet<u64> = BTreeSet::new();
     // After a failed fetch the requester re-inserts its request only when it runs next: until
     // the block is handed out again it is *possibly* outstanding ("limbo").
     let mut limbo: BTreeSet<u64> = BTreeSet::new();
@@ -214,8 +227,15 @@ fn check(hist: &SharedHist<Ev>) {
     for (no, e) in &events {
         match e {
             Ev::Request { number, .. } => {
+                fetched.remove(number);
                 live_requests.insert(*number);
                 outstanding.insert(*number);
+            }
+            Ev::RequestDone { number, .. } if !fetched.contains(number) => {
+                hist.violation("C19", "request_completed_without_fetch", format!("event {no}: the request for block {number} returned Ok although no peer fetched the block successfully"));
+                live_requests.remove(number);
+                outstanding.remove(number);
+                limbo.remove(number);
             }
             Ev::RequestDone { number, .. } | Ev::RequestCanceled { number, .. } => {
                 live_requests.remove(number);
@@ -244,6 +264,9 @@ fn check(hist: &SharedHist<Ev>) {
             }
             Ev::Outcome { number, ok, .. } => {
                 held.remove(number);
+                if *ok {
+                    fetched.insert(*number);
+                }
                 if !*ok && live_requests.contains(number) {
                     limbo.insert(*number);
                 }
